@@ -70,10 +70,14 @@ impl DynGroup {
                     OperationError::InvalidEntryState
                 })?;
 
-            let scope_i = Filter::from_rw(ident_internal, &scope_f, qs).map_err(|e| {
-                error!("{} validation failed {:?}", Attribute::DynGroupFilter, e);
-                e
-            })?;
+            // Only live entries can be members - the filter as written by the admin also
+            // matches recycled entries, which must never be (re)added.
+            let scope_i = Filter::from_rw(ident_internal, &scope_f, qs)
+                .map(|f| f.into_ignore_hidden())
+                .map_err(|e| {
+                    error!("{} validation failed {:?}", Attribute::DynGroupFilter, e);
+                    e
+                })?;
 
             trace!(dyngroup_filter = ?scope_i);
 
@@ -148,10 +152,12 @@ impl DynGroup {
                     OperationError::InvalidEntryState
                 })?;
 
-            let scope_i = Filter::from_rw(&ident_internal, &scope_f, qs).map_err(|e| {
-                error!("dyngroup_filter validation failed {:?}", e);
-                e
-            })?;
+            let scope_i = Filter::from_rw(&ident_internal, &scope_f, qs)
+                .map(|f| f.into_ignore_hidden())
+                .map_err(|e| {
+                    error!("dyngroup_filter validation failed {:?}", e);
+                    e
+                })?;
 
             let uuid = nd_group.get_uuid();
 
